@@ -199,7 +199,7 @@ func refClaims(spec *refSpec, p map[string]any, t0, t1 time.Time) (verdict, stri
 		}
 		for _, req := range spec.Scopes {
 			if !scopeSatisfied(spec.ScopeMode, req, granted) {
-				return vReject, "required scope " + req + " not matched"
+				return vReject, "required scope not matched"
 			}
 		}
 	}
@@ -332,4 +332,52 @@ func lookupPath(p map[string]any, path string) any {
 		cur = m[seg]
 	}
 	return cur
+}
+
+// refDiagnose explains a disagreement: it looks for *any* published key that verifies the signature under the
+// header alg and names the first condition of the statement this key/token violates.
+func refDiagnose(spec *refSpec, ks *keySet, certOK func(*keyEntry) bool, token string, fallback string) string {
+	parts := strings.Split(strings.TrimSpace(token), ".")
+	if len(parts) != 3 {
+		return fallback
+	}
+	var raw [3][]byte
+	for i, s := range parts {
+		b, err := b64.DecodeString(s)
+		if err != nil {
+			return fallback
+		}
+		raw[i] = b
+	}
+	hdr, ok := decodeObject(raw[0])
+	if !ok {
+		return fallback
+	}
+	alg, _ := hdr["alg"].(string)
+	kid, _ := hdr["kid"].(string)
+	input := []byte(b64.EncodeToString(raw[0]) + "." + b64.EncodeToString(raw[1]))
+	var verifying []*keyEntry
+	for _, k := range ks.Keys {
+		if refSigOK(alg, k.pub, input, raw[2]) {
+			if kid != "" && k.Kid == kid {
+				verifying = append([]*keyEntry{k}, verifying...)
+			} else {
+				verifying = append(verifying, k)
+			}
+		}
+	}
+	for _, k := range verifying {
+		switch {
+		case kid != "" && k.Kid != kid:
+			return "verifying key is not the key named by kid"
+		case k.Alg == "" || k.Alg != alg:
+			return "declared key alg differs from token alg"
+		case !slices.Contains(spec.Allowed, alg):
+			return "alg not allowed"
+		case !certOK(k):
+			return "key certificate not valid"
+		}
+		return fallback
+	}
+	return "signature does not verify with any published key"
 }
